@@ -853,8 +853,14 @@ class LabReplay:
 
     def fact_ok(self, stated, model_amount, dim, n=1):
         """stated: (value, dim, slack); model_amount: exact amount in model units of dimension dim."""
-        e = float(model_amount * self.inst.base_scale(dim))
+        e = float(model_amount) * float(self.inst.base_scale(dim))
         return abs(stated[0] - e) <= n * stated[2] + 1e-6 * abs(e) + 1e-12
+
+    def impl_c(self, container):
+        """the implementation's own contents of a container, in model units (exactness of the instruction text is
+        judged against what the implementation actually did; that it did the right thing is C02/C05/C11/C12)"""
+        mc, _ = self.model_contents(container)
+        return {s: mc.get(s, 0.0) for s in KIND}
 
     def mon_c19(self, ctx):
         import re
@@ -876,9 +882,10 @@ class LabReplay:
             dst_wells = self.P.wells_of(out.new[dn])
             for j in sorted({p[1] for p in ev["pairs"]}):
                 pairs = [p for p in ev["pairs"] if p[1] == j]
-                gain = {s: post[dn]["w"][j - 1]["c"][s] - pre[dn]["w"][j - 1]["c"][s] for s in pre[dn]["w"][j - 1]["c"]}
-                if all(x == 0 for x in gain.values()):
+                if all(post[dn]["w"][j - 1]["c"][s] == pre[dn]["w"][j - 1]["c"][s] for s in pre[dn]["w"][j - 1]["c"]):
                     continue
+                a_, b_ = self.impl_c(self.P.wells_of(objs[dn])[j - 1]), self.impl_c(dst_wells[j - 1])
+                gain = {s: b_[s] - a_[s] for s in a_}
                 lines = last_lines(dst_wells[j - 1], len(pairs))
                 tot = {"L": 0.0, "g": 0.0}
                 slack, dim = 0.0, None
@@ -910,6 +917,9 @@ class LabReplay:
             key.update(target=self.target_kind(n, ev.get("r", "-")))
             for i, y in zip(wells, ys):
                 y = rat(y)
+                if not (op == "dilute" and y == 0):
+                    a_, b_ = self.impl_c(self.P.wells_of(objs[n])[i - 1]), self.impl_c(self.P.wells_of(out.new[n])[i - 1])
+                    y = b_[ev["solvent"]] - a_[ev["solvent"]]
                 ln = last_lines(self.P.wells_of(out.new[n])[i - 1])[0] if last_lines(self.P.wells_of(out.new[n])[i - 1]) else ""
                 if op == "dilute" and y == 0:
                     continue
@@ -929,12 +939,13 @@ class LabReplay:
             self.ran("C19")
             c = out.new[ev["n"]]
             text = (c.instructions or "").splitlines()[0] if c.instructions else ""
-            want = post[ev["n"]]["w"][0]["c"]
+            want = self.impl_c(c)
             portion = None
             if op == "create_solution" and ev["solvIsVessel"]:
                 m = re.fullmatch(r"Add (.*) to (.+?) of (.+)\.", text)
-                portion = {s: want[s] - (rat(ev["xs"][ev["solutes"].index(s)]) if s in ev["solutes"] else 0) for s in want}
-                want = {s: rat(x) for s, x in zip(ev["solutes"], ev["xs"])}
+                a_, b_ = self.impl_c(objs[ev["solvent"]]), self.impl_c(out.new[ev["solvent"]])
+                portion = {s: a_[s] - b_[s] for s in a_}                      # what left the solvent container
+                want = {s: want[s] - portion[s] for s in ev["solutes"]}      # what was added besides
             else:
                 m = re.fullmatch(r"Add (.*) to a (.*)container\.", text)
             if op == "new" and not ev["entries"]:
@@ -961,7 +972,7 @@ class LabReplay:
                     return
             if portion is not None:
                 st = self.stated(m.group(2), ("L",))
-                vol = sum((x * VOLPER[s_] for s_, x in portion.items()), F(0))
+                vol = sum(x * float(VOLPER[s_]) for s_, x in portion.items())
                 if st is None or m.group(3) != objs[ev["solvent"]].name or not self.fact_ok(st, vol, "L"):
                     self.report("C19", "solvent_amount_misstated", key, f"{out.call}: instruction {text!r}; the solvent portion is {float(vol * inst.base_scale('L'))!r} L", ev, ctx["pre_key"])
         elif op == "create_solution_from":
@@ -976,11 +987,13 @@ class LabReplay:
             if sty is None or stx is None:
                 self.report("C19", "dilution_instruction_unreadable", key, f"{out.call}: instruction is {text!r}", ev, ctx["pre_key"])
                 return
-            px = {s_: pre[ev["src"]]["w"][0]["c"][s_] - post[ev["src"]]["w"][0]["c"][s_] for s_ in pre[ev["src"]]["w"][0]["c"]}
+            a_, b_ = self.impl_c(objs[ev["src"]]), self.impl_c(out.new[ev["src"]])
+            px = {s_: a_[s_] - b_[s_] for s_ in a_}
+            y_added = self.impl_c(c)[ev["solvent"]] - px[ev["solvent"]]
             prec = self.pp.config.precisions.get("mL", self.pp.config.precisions["default"])
             slack = 0.5 * 10 ** (-prec) * 1e-3 * 1.0001
             okx = self.fact_ok((stx[0], "L", slack), measure(px, "L"), "L")
-            oky = self.fact_ok((sty[0], "L", slack), rat(ev["y"]) * VOLPER[ev["solvent"]], "L")
+            oky = self.fact_ok((sty[0], "L", slack), y_added * float(VOLPER[ev["solvent"]]), "L")
             if not (okx and oky) or m.group(2) != inst.subs[ev["solvent"]].name or m.group(4) != objs[ev["src"]].name:
                 self.report("C19", "dilution_amount_misstated", key,
                             f"{out.call}: instruction {text!r}; actually {float(rat(ev['y']) * VOLPER[ev['solvent']] * inst.base_scale('L'))!r} L of solvent and {float(measure(px, 'L') * inst.base_scale('L'))!r} L of stock", ev, ctx["pre_key"])
